@@ -43,9 +43,11 @@ def extract_atom(
     :param should_remove_trailing_zeros: whether to remove trailing zeros or not.
     :return: the PDDL expression.
     """
-    if expression.func == Float:
+    if expression.func == Float or (
+        expression.is_Rational and not expression.is_Integer
+    ):
         formatted_expression = (
-            format(expression, f".{decimal_digits}f")
+            format(float(expression), f".{decimal_digits}f")
             if not round(float(expression), decimal_digits).is_integer()
             else f"{int(round(float(expression), decimal_digits))}"
         )
@@ -114,7 +116,7 @@ def _convert_internal_expression_to_pddl(
     if isinstance(expression, Pow) and expression.exp == -1:
         pddl_expression = _convert_internal_expression_to_pddl(
             expression.base,
-            SYMPY_OP_TO_PDDL_OP[expression.base.func],
+            SYMPY_OP_TO_PDDL_OP.get(expression.base.func, ""),
             symbols_map,
             decimal_digits,
             should_remove_trailing_zeros,
@@ -129,7 +131,7 @@ def _convert_internal_expression_to_pddl(
     for i in range(len(expression.args)):
         comp = _convert_internal_expression_to_pddl(
             expression.args[i],
-            SYMPY_OP_TO_PDDL_OP[expression.args[i].func],
+            SYMPY_OP_TO_PDDL_OP.get(expression.args[i].func, ""),
             symbols_map,
             decimal_digits,
             should_remove_trailing_zeros,
@@ -166,7 +168,7 @@ def convert_expr_to_pddl(
     :param should_remove_trailing_zeros: whether to remove trailing zeros or not.
     :return: the PDDL expression.
     """
-    initial_operator = SYMPY_OP_TO_PDDL_OP[expr.func]
+    initial_operator = SYMPY_OP_TO_PDDL_OP.get(expr.func, "")
     return _convert_internal_expression_to_pddl(
         expr,
         initial_operator,
